@@ -76,7 +76,7 @@ RULE = ('Part A: workloads.single_assembly / core_problem over seeds plus '
         'Part B: catalogue of single-fault mutators x base replicas; a case '
         'is non-trivial when its base ran and the mutant outcome was '
         'observed; distinct by mutator id. quick: 60 singles, 6 cores, 24 '
-        'options x 3, 339 mutators x 3 bases (2 for seven-assembly bases, '
+        'options x 3, 336 mutators x 3 bases (2 for seven-assembly bases, '
         'small bundles of 2-4 rings, 0.5 m); thorough: 1200 singles, 100 '
         'cores (up to 19 assemblies), options x 24, mutators x 24 on bases '
         'of 2-6 rings, plus the -inf literals.')
@@ -749,7 +749,7 @@ NUM_FAULTS = {
     'nan': lambda v, d: float('nan'),
     'inf': lambda v, d: float('inf'),
     'neg_inf': lambda v, d: float('-inf'),
-    'tiny': lambda v, d: 1e-12,
+    'tiny': lambda v, d: 1e-12,      # vanishing flow / flow area / step
 }
 
 
@@ -773,9 +773,7 @@ def _register_numeric():
             if fault == 'tiny' and label not in (
                     'Core/bypass_fraction', 'Assignment/flowrate',
                     'Assembly/bypass_gap_flow_fraction',
-                    'Setup/axial_mesh_size', 'Assembly/wire_pitch',
-                    'Core/length', 'AxialRegion/vf_coolant',
-                    'Materials/coolant/density'):
+                    'Setup/axial_mesh_size', 'AxialRegion/vf_coolant'):
                 continue
 
             def fn(P, T, rng, get=get, put=put, fault=fault, dflt=dflt):
